@@ -41,7 +41,7 @@ THEOREMS = {
     "trim_enum_values": ["C15_trim_enum_values_correct_partial", "C15_trim_enum_values_frame", "C15_trim_enum_values_absent",
                          "C15_trim_enum_values_counterexample_offpath"],
     "constant_to_enum": ["C15_constant_to_enum_correct_partial", "C15_constant_to_enum_frame", "C15_constant_to_enum_absent",
-                         "C15_constant_to_enum_counterexample"],
+                         "C15_constant_to_enum_counterexample", "C15_constant_to_enum_odd_constant"],
     "fields_set_default": ["C15_fields_set_default_correct", "C15_fields_set_default_frame", "C15_fields_set_default_absent",
                            "C15_fields_set_default_order_independent"],
     "hint_object": ["C15_hint_object_correct", "C15_hint_object_frame", "C15_hint_object_absent", "C15_hint_object_total",
@@ -54,6 +54,67 @@ ALL_THEOREMS = [P + t for ts in THEOREMS.values() for t in ts]
 
 # quirks for which the Lean model cannot be expected to reproduce the real output
 MODEL_EXCUSED = {"seq/as-value-shared"}
+
+
+S1 = '(schemas (schema "p" (smeta "" "" "") "" (bad "" (meta false nil (hints))) (objects '
+# inputs that used to crash cog and were repaired in /repo (`fixed` in known_findings.json): they must pass
+MUST_PASS = [
+    # 637545e: constant_to_enum on a `string` scalar whose constant is not a string (was: panic on Value.(string))
+    'xform constant_to_enum ((objects "p.K")) ' + S1 + '("K" (obj "K" (c) (scalar "string" (i i 1) (cs) (meta false nil (hints))) "p" "K")))))',
+    # d683cb9: hint_object on a type whose Hints map is nil (was: panic on the write into the nil map)
+    'xform seq ((retype_object ((object "p.A") (as (scalar "string" nil (cs) (meta false nil (hints ("<nil-map>" nil))))))) '
+    '(hint_object ((object "p.A") (hints ("kind" (s "x")))))) ' + S1 + '("A" (obj "A" (c) (scalar "bool" nil (cs) (meta false nil (hints))) "p" "A")))))',
+]
+
+
+DRV_MAIN = '''import Cog.Drv.XformDrv
+open Cog.Drv
+def handle (line : String) : String :=
+  let line := line.trimAscii.toString
+  match line.splitOn " " with
+  | "xform" :: rest => xformLine (" ".intercalate rest)
+  | _ => "bad-request"
+partial def loop (h : IO.FS.Stream) (out : IO.FS.Stream) : IO Unit := do
+  let line ← h.getLine
+  if line.isEmpty then return ()
+  out.putStrLn (handle line)
+  loop h out
+def main : IO Unit := do
+  let out ← IO.getStdout
+  loop (← IO.getStdin) out
+  out.flush
+'''
+DRV_LAKEFILE = '''name = "c15drv"
+version = "0.1.0"
+defaultTargets = ["drv15"]
+
+[[require]]
+name = "cogmodel"
+path = "%s"
+
+[[lean_exe]]
+name = "drv15"
+root = "Main15"
+'''
+
+
+def private_driver(dest):
+    """A driver that links only Cog.Drv.XformDrv (scratch lake package under .work that requires /verif/lean by
+    path; same handler function as the shared drv)."""
+    d = os.path.join(WORK, "c15", "drvpkg")
+    os.makedirs(d, exist_ok=True)
+    for name, text in (("Main15.lean", DRV_MAIN), ("lakefile.toml", DRV_LAKEFILE % LEAN)):
+        path = os.path.join(d, name)
+        if not os.path.exists(path) or open(path, encoding="utf-8").read() != text:
+            with open(path, "w", encoding="utf-8") as fh:
+                fh.write(text)
+    with Lock("lake"):
+        p = run(["lake", "build", "drv15"], cwd=d)
+        exe = os.path.join(d, ".lake", "build", "bin", "drv15")
+        if p.returncode != 0 or not os.path.exists(exe):
+            return False, (p.stdout + p.stderr)[-3000:]
+        shutil.copy2(exe, dest)
+    return True, ""
 
 
 def unmarked(request):
@@ -79,15 +140,16 @@ def main():
     ]
     hb, err = build_go("verifharness", "harness", files=HARNESS_BASE + ["c15_*.go"], tag="c15")
     c.oblige("harness builds against the working tree (%s)" % REPO, hb is not None, err)
-    c.lean_obligations(ALL_THEOREMS, imports=("Cog.Props.C15", "Cog.Xform.SpecAll", "Cog.Xform.Witness"))
-    # private copy of the driver: other checks relink lean/.lake/build/bin/drv while this one runs
+    # the theorems and the xform driver module; NOT the shared `drv` (lean/Main.lean imports every property's
+    # driver module, so a half-written module of another property would stop this check)
+    c.lean_obligations(ALL_THEOREMS, imports=("Cog.Props.C15", "Cog.Xform.SpecAll", "Cog.Xform.Witness"),
+                       targets=("Cog.Props.C15", "Cog.Xform.SpecAll", "Cog.Xform.Witness", "Cog.Drv.XformDrv"))
     mydrv = os.path.join(BIN, "drv-c15-%d" % os.getpid())
-    try:
-        with Lock("lake"):
-            shutil.copy2(DRV, mydrv)
+    ok, detail = private_driver(mydrv)
+    c.oblige("xform-only driver (Cog.Drv.XformDrv, same `xformLine` as lean/Main.lean dispatches to) links", ok, detail)
+    if ok:
         core.DRV = mydrv
-    except OSError as e:
-        c.oblige("driver binary available", False, str(e))
+    else:
         hb = None
     if hb is None:
         c.finish("lake build && lake env lean <audit>", "n/a")
@@ -206,6 +268,15 @@ def main():
     extra = [f["pinned_input"] for f in c.known if f.get("pinned_input", "").startswith("xform ") and f["pinned_input"] not in [w[2] for w in wit]]
     if extra:
         process(eval_lines(extra), "xform-pinned", {})
+
+    # must-pass pinned cases (former crashes)
+    rows = eval_lines(MUST_PASS)
+    process(rows, "xform-must-pass", {})
+    for r in rows:
+        okrow = r[1].startswith("ok ") and r[2] == "ok"
+        c.oblige("repaired input passes: " + r[0].split(" (schemas", 1)[0][:120], okrow, (r[1][:200], r[2][:300]))
+        if not okrow:
+            c.violation({"kind": "regression-of-a-fixed-defect", "stream": "xform-must-pass", "request": r[0], "impl": r[1], "oracle": r[2]})
 
     # 2. strings
     rows = harness(hb, "xform-strings", n=400 if c.tier == "quick" else 20000, seed=c.seed)
